@@ -56,7 +56,7 @@ CLAIMED['C13'] = dict(
     text='Unbounded proof that the real source of SignedFunction._map_args raises a FailedFunctionCall subclass iff one of the five '
          'CPython binding rules is violated (too many positionals; multiple values; unexpected keyword incl. positional-only named '
          'without **kwargs; missing positional; missing keyword-only) and on success gives every parameter exactly the argument CPython '
-         'gives it (positional / keyword / default / *args tuple / **kwargs dict). Through-the-VM behaviour is sampled by a bounded sweep against real calls. Both instances of _map_args are proved: self a SignedFunction and self an InterpreterFunction (argcount / get_nondefault_params overridden; the generator is verified as the builder of the list it yields).',
+         'gives it (positional / keyword / default / *args tuple / **kwargs dict). Through-the-VM behaviour is sampled by a bounded sweep against real calls (plain functions, methods, classmethods, staticmethods, __init__/__new__ constructors, f.__defaults__ assignments, and functions/methods/constructors declared in a stub). Both instances of _map_args are proved: self a SignedFunction and self an InterpreterFunction (argcount / get_nondefault_params overridden; the generator is verified as the builder of the list it yields).',
     note='Trusted: engine/, z3, A-SPEC (rules transliterated from the language reference; validated against real calls), cfg.Variable '
          'operations as opaque constructors, preconditions: no *args/**kwargs at the call site, well-formed signature, visible named args. '
          'InterpreterFunction overrides of argcount/get_nondefault_params, overload choice, PyTDFunction binding: unverified surround. InterpreterFunction instance: precondition that the code object lists the parameter names the signature was built from (_build_signature is unverified surround: a contract for it was withdrawn because two obligations were unstable).',
